@@ -213,12 +213,13 @@ def train_bandits(
                 next_context, reward = env.step(action)  # Act in environment
 
                 # Save experience to replay buffer
+                # Store the context of the arm that was pulled, as float32 like the networks
                 transition = TensorDict(
                     {
-                        "obs": context,
+                        "obs": context[action],
                         "reward": reward,
                     }
-                )
+                ).float()
                 transition = transition.unsqueeze(0)
                 transition.batch_size = [1]
                 memory.add(transition)
